@@ -106,6 +106,7 @@ def run(ctx):
     from . import system_common as sysc
     sessions, verdict = sysc.run_sessions(ctx, 150 if ctx.quick else 3000, ctx.seed + 16)
     sysc.judge(ctx, "C16", sessions, verdict, sysc.CONVERT_OPS, "conversion inside a session")
+    sysc.mc_for(ctx, "C16")          # MC_System: bounded model of whole sessions, every transition replayed on the library
     ctx.sample({"c2s": {"source": cv.show(recs[2]["src"]), "outcome": recs[2]["st"], "timing_same": recs[2]["timing"], "notes_same": recs[2]["notes"]}})
     ctx.exhaustive = True
     ctx.rule = ("S2C: every case of the bounded MC_Convert sm2ssc configuration (timing strings incl. negative values, FREEZES / ANIMATIONS "
